@@ -22,4 +22,69 @@ ENGINES = [
 NOTES = ('Technique family: contract-based deductive verification of the real code (see DESIGN.md). '
          'Exit codes: 0 held, 1 VIOLATION, 2 nothing evaluated, 3 checker fault.')
 
-PROPS = {}
+
+def _hyb(pid, proved, bounded, note):
+    return {'claimed': True, 'level': 'other',
+            'text': ('Hybrid. DEDUCTIVE (unbounded, partial correctness): ' + proved + ' are discharged by pyvc on the real functions, '
+                     're-read from /repo on every run. BOUNDED STAND-IN (never counted as proved): ' + bounded +
+                     ' The deductive tier decides the clauses it names for ALL inputs; the property-level relational statement is only '
+                     'explored up to the stated bounds, so the overall claim is not a proof.'),
+            'note': note, 'technique': 'contract-based deductive verification (own AST->VC generator pyvc, z3 then cvc5) + run-time contract checking over enumerated inputs (bounded)'}
+
+
+def _bnd(pid, bounded, why, note):
+    return {'claimed': True, 'level': 'exploration',
+            'text': ('BOUNDED STAND-IN only (labelled bounded, nothing counted as proved): ' + bounded + ' ' + why),
+            'note': note, 'technique': 'run-time contract (property-level postcondition) on the real code over enumerated inputs (bounded stand-in; deductive tier not applicable to the functions involved, see DESIGN.md)'}
+
+
+_T_EXT = 'Trusted: pysmiles, networkx (and RDKit where used) behave as documented; python floats as reals in the deductive tier; oracles listed in the evidence assumptions.'
+
+PROPS = {
+    'C01': _hyb('C01', 'the descriptor compatibility relation (compatible), the first-match search (match_bonding_descriptors: membership, compatibility, '
+                'LookupError iff no compatible pair) and every clause at bond creation (edges_from_bonding_descrpt: bonded atoms belong to the two ends, '
+                'descriptor consumed exactly once, order = annotated digit or 1.5 between aromatic atoms)',
+                'resolve(cut molecule) == original molecule == resolve(uncut), checked against an independent valence table, over all small molecules '
+                '(<= 4 heavy atoms quick) x all connected partitions x renderings x base-graph orders.', _T_EXT),
+    'C02': _hyb('C02', 'merge_graphs (consecutive new keys in template order, every template attribute copied, membership index, template edges and their '
+                'attributes mapped, old part and template untouched)',
+                'membership bi-implication, covering and template-copy isomorphism as run-time postconditions of every resolve() on generated base graphs x fragment sets, all levels.', _T_EXT),
+    'C03': _hyb('C03', 'ALL clauses at the point of bond creation: compatible == spec for both conventions; match_bonding_descriptors returns a compatible pair '
+                'present on the two graphs and raises LookupError iff none exists; edges_from_bonding_descrpt adds at most `order` bonds per base-graph edge (none for 0), '
+                'only between nodes of the two fragment graphs, records the pair, consumes exactly the first instance of each used descriptor, sets order = digit / 1.5',
+                'the same five clauses re-checked on the RETURNED graph of resolve() (after squashing, hydrogen rebuild, renumbering) on ambiguous and unambiguous inputs, legacy on/off.', _T_EXT),
+    'C04': _hyb('C04', '_find_next_character (least position >= start holding one of the characters, else len)',
+                'read_cgsmiles(render(ast)) == denote(ast) exhaustively to 4 node tokens (quick) / 6 (thorough) and randomly to 14; the 280-line scanner itself is outside pyvc.', _T_EXT),
+    'C05': _hyb('C05', '_find_next_character', 'read(shorthand) isomorphic to denote(expand(ast)) and identical numbering for multiplied nodes over G1 with multipliers at every position.', _T_EXT),
+    'C06': _bnd('C06', 'stepwise resolution == flattened two-level string; resolve / resolve_iter / resolve_all agree; each coarse graph is the previous fine graph.',
+                'resolve() is a composition over callees that are not all under contract yet.', _T_EXT),
+    'C07': _bnd('C07', 'read_cgsmiles(write_cgsmiles_graph(G)) isomorphic to G over all connected graphs <= 4 nodes x all bond-order assignments 0-4 (quick), <= 6 nodes sampled (thorough), relabelings.',
+                'The DFS writer and the scanner are serialiser/scanner code outside the accepted subset (DESIGN §6 C07).', _T_EXT),
+    'C08': _hyb('C08', 'format_bonding == fold of (order symbol + [descriptor]) over the list, every descriptor in order',
+                'read_fragments(write_cgsmiles_fragments(F)) isomorphic to F incl. descriptors; complete strings written from resolver inputs resolve to the same molecule.', _T_EXT),
+    'C09': _bnd('C09', 'independent valence table + hydrogen attribute inheritance on every all-atom resolver output of the C01/C10 generators plus polymers, grafts, charged and aromatic units.',
+                'valence filling happens inside pysmiles (trusted).', _T_EXT),
+    'C10': _hyb('C10', 'the compatibility relation used for the shared-atom pairs (compatible)',
+                'resolve(overlapping) isomorphic to resolve(disjoint), one atom fewer per shared pair, membership of merged atoms, over G2 with any subset of cuts shared.', _T_EXT),
+    'C11': _hyb('C11', 'edges_from_bonding_descrpt (range(order): no bond for order 0; the fragment graph of a virtual node is never read) and merge_graphs',
+                'inserting virtual nodes / zero-order edges anywhere leaves the fine molecule and every other coarse node mapping unchanged; fragment-less node with order >= 1 raises.', _T_EXT),
+    'C12': _hyb('C12', 'merge_graphs frame: the template graph is never modified, copied attributes are deep copies (frame obligations), keys consecutive',
+                'canonical dump equality across calls, fragment-definition permutations, the three constructors, shared dictionaries and PYTHONHASHSEED values (subprocesses).', _T_EXT),
+    'C13': _bnd('C13', 'strip_bonding_descriptors(text) == expectation known by construction over G3 (<= 2 insertions quick, <= 3 thorough).',
+                'The tokenizer is a character state machine over a peekable iterator, outside the accepted subset.', _T_EXT),
+    'C14': _bnd('C14', 'positional == keyword forms, defaults, numeric spellings, free keys; annotations reach coarse and fine graphs on every copy.',
+                'Binding is done by inspect.Signature.bind (trusted).', _T_EXT),
+    'C15': _bnd('C15', 'chirality label stays on its atom; cis/trans independent of cuts and fragment order; stored references form existing paths.',
+                'E/Z interpretation happens inside pysmiles (trusted).', _T_EXT),
+    'C16': _hyb('C16', 'merge_graphs (copy isomorphic to the template, membership), find_complementary_bonding_descriptor (every result eligible and complementary, '
+                'OSError iff none), find_open_bonds (node listed under a descriptor iff its list holds it)',
+                'connected tree of copies, complementary descriptors of equal order, no descriptor twice, canonical numbering, valence, over G4 sampler configurations.', _T_EXT),
+    'C17': _hyb('C17', '_set_bond_order_defaults (list and dict variants) and _select_bonding_operator (result is offered; with a non-empty table its reactivity is > 0; trusted random.choices)',
+                'target-weight rule, derived masses vs an independent table, zero reactivities never chosen, terminal rule, same seed => same molecule in and across processes.', _T_EXT),
+    'C18': _hyb('C18', 'forward_map_molecule: bead position == sum(w_i x_i) / sum(w_i) over exactly the bead\'s own atoms (reals, per coordinate)',
+                'RDKit round trip with and without conformer, bonded atoms at bonding distance after embedding for all relabelings, weighted mean and translation equivariance.', _T_EXT),
+    'C19': _bnd('C19', 'one finite 2D position per node, bonded nodes distinct, mean bond length == default_bond, over graph families x bond lengths x relabelings x seeds.',
+                'Layout optimisers are networkx floating-point code (trusted).', _T_EXT),
+    'C20': _bnd('C20', 'fault injection at every position of generated strings: documented exception type raised, no graph returned.',
+                'The scanners are outside the accepted subset.', _T_EXT),
+}
